@@ -97,7 +97,7 @@ TEXT = {
     "C02": {
         "engine": "crash",
         "technique": "runtime trace monitoring + enumeration of crash images (cut x lost-subset x sector tearing) replayed into the real recovery; offline oracle over acknowledgement-relative generation windows",
-        "level_text": "For every flush()/clean-drop acknowledgement in the recorded workloads, every later cut of the device trace (all cuts on short traces, all fsync-adjacent cuts plus a seeded sample on long ones) is expanded into images: durable prefix + each subset (all subsets when <=4, else empty/all/singles/leave-one-out/random) of the writes not yet covered by a completed fsync, plus sector-torn variants of the in-flight write. Each distinct image is recovered by the real store; every key must hold a generation no older than the last one completed before the acknowledged call began, and acknowledged deletes must stay deleted.",
+        "level_text": "For every flush()/clean-drop acknowledgement in the recorded workloads, every later cut of the device trace (all cuts on short traces, all fsync-adjacent cuts plus a seeded sample on long ones) is expanded into images: durable prefix + each subset (all subsets when <=4, else empty/all/singles/leave-one-out/random) of the writes not yet covered by a completed fsync, plus sector-torn variants of the in-flight write. Each distinct image is recovered by the real store; every key must hold a generation no older than the last one completed before the acknowledged call began, and acknowledged deletes must stay deleted. A second, chained epoch re-opens a sample of crash images (preferring those where a key has two generations on the device), takes what recovery exposes as acknowledged, deletes / rewrites every recovered key, flushes, and enumerates crash images of that second trace: nothing older than the recovered state may ever come back (this is what catches recovery leaving stale generations behind).",
         "level_note": _CRASH_NOTE,
     },
     "C03": {
